@@ -260,19 +260,68 @@ if __name__ == "__main__":
 
 # ----------------------------------------------------------------------------------------------
 # GenEffects.v: call graph, direct effects, command roots (C18, C14)
-COMMANDS = {"recheck": "commands.recheck", "info": "commands.info", "magnet": "commands.get_magnet",
-            "create": "commands.create", "rename": "commands.rename", "rebuild": "commands.rebuild",
-            "edit": "commands.edit"}
+COMMAND_NAMES = {"recheck": "recheck", "info": "info", "magnet": "magnet", "create": "create", "rename": "rename",
+                 "rebuild": "rebuild", "edit": "edit"}      # theorem name -> sub-command name on the command line
 KINDS = ["Read", "Write", "Remove", "Rename", "Mkdir", "Copy", "Chmod"]
+
+
+def derive_commands(repo):
+    """sub-command name -> the package function the CLI dispatches to, read from cli.py:
+         X = subparsers.add_parser("name", ...)   ...   X.set_defaults(func=commands.F)
+    Raises when a sub-command of COMMAND_NAMES cannot be tied to exactly one function (fail closed)."""
+    tree = ast.parse(open(os.path.join(repo, "torrentfile", "cli.py"), encoding="utf-8").read())
+    var_to_name, found = {}, {}
+    for n in ast.walk(tree):
+        if isinstance(n, ast.Assign) and len(n.targets) == 1 and isinstance(n.targets[0], ast.Name) and isinstance(n.value, ast.Call) \
+                and isinstance(n.value.func, ast.Attribute) and n.value.func.attr == "add_parser" and n.value.args \
+                and isinstance(n.value.args[0], ast.Constant):
+            var_to_name[n.targets[0].id] = n.value.args[0].value
+    for n in ast.walk(tree):
+        if isinstance(n, ast.Call) and isinstance(n.func, ast.Attribute) and n.func.attr == "set_defaults" \
+                and isinstance(n.func.value, ast.Name) and n.func.value.id in var_to_name:
+            for k in n.keywords:
+                if k.arg == "func":
+                    v = k.value
+                    if isinstance(v, ast.Attribute) and isinstance(v.value, ast.Name) and v.value.id == "commands":
+                        found.setdefault(var_to_name[n.func.value.id], set()).add(f"commands.{v.attr}")
+                    else:
+                        found.setdefault(var_to_name[n.func.value.id], set()).add("?")
+    out = {}
+    for thm, sub in COMMAND_NAMES.items():
+        fs = found.get(sub, set())
+        if len(fs) != 1 or "?" in fs:
+            raise ValueError(f"cannot tie sub-command `{sub}` to one function of commands.py (found {sorted(fs)})")
+        out[thm] = next(iter(fs))
+    return out
+
+
+def command_roots(g, repo, name):
+    """roots of a command: the function its sub-parser dispatches to, the dispatcher cli.execute (runs before every command:
+    -q/-v handling, Config.activate_logger) and the import-time code of every module of the package"""
+    cmds = derive_commands(repo)
+    q = cmds[name]
+    if q not in g.fns:
+        raise ValueError(f"command function {q} not found")
+    pre = [r for r in ("cli.execute", "cli.main") if r in g.fns]
+    mods = sorted(r for r in g.fns if r.endswith(".<module>"))
+    return [q] + pre + mods
 
 
 def gen_effects(repo):
     g = Graph(repo)
     quals = sorted(g.fns)
     idx = {q: i for i, q in enumerate(quals)}
+    cmds = derive_commands(repo)
+    # the dispatch edge of cli.execute must lead to nothing but functions the sub-parsers name
+    stray = sorted(g.dispatch - set(g.fns))
+    if "cli.execute" in g.fns and not g.dispatch:
+        g.fns["cli.execute"].unknown.append("the dispatch call args.func(args) was not found in cli.execute")
+    for s in stray:
+        g.fns["cli.execute"].unknown.append(f"dispatch target {s} is not a package function")
     lines = ["(* GENERATED by gen/gen_effects.py from torrentfile/*.py -- do not edit.",
              "   Over-approximate call graph (gen/callgraph.py), direct filesystem effects per function and the",
-             "   command entry points.  Function numbers index fn_names. *)",
+             "   command entry points.  Function numbers index fn_names.  Roots of a command: the function its",
+             "   sub-parser stores under func= (read from cli.py), cli.execute, cli.main and every <module> (import-time code). *)",
              "From Coq Require Import List String. Import ListNotations.",
              "From TF Require Import Model.Effects.", "Open Scope string_scope.", ""]
     lines.append("Definition fn_names : list (nat * string) := [")
@@ -288,15 +337,50 @@ def gen_effects(repo):
         if g.fns[q].unknown:
             effs.append("Unknown")
         if effs:
-            rows.append(f"  ({idx[q]}, [{'; '.join('E' + e for e in effs)}])")
+            why = "; ".join(sorted({d for _, d in g.fns[q].effects if _ != "Read"} | set(g.fns[q].unknown)))
+            rows.append((f"  (* {q}: {why.replace('*)', '* )').replace('(*', '( *')} *)\n" if why else "") +
+                        f"  ({idx[q]}, [{'; '.join('E' + e for e in effs)}])")
     lines.append(";\n".join(rows))
     lines.append("].\n")
-    # the dispatcher cli.execute runs before every command
-    pre = [idx[q] for q in ("cli.execute",) if q in idx]
-    for name, q in COMMANDS.items():
-        roots = ([idx[q]] if q in idx else []) + pre
-        lines.append(f"Definition cmd_{name} : list nat := [{'; '.join(map(str, roots))}].")
+    for name in COMMAND_NAMES:
+        roots = [idx[r] for r in command_roots(g, repo, name)]
+        lines.append(f"Definition cmd_{name} : list nat := [{'; '.join(map(str, roots))}].   (* {cmds[name]} *)")
     return "\n".join(lines) + "\n", g, idx
+
+
+def metafile_write_shape(repo, g):
+    """torrent.MetaFile.write must be: effect-free preparation, then exactly ONE `pyben.dump(<meta>, self.outfile)` (a truncating
+    write of the whole encoding to the output path), not in a loop, nothing else that touches the filesystem -- this is what
+    Model/Effects.create_fs assumes of `create` after the probe.  Returns a list of reasons why it is not ([] = as modelled)."""
+    q = "torrent.MetaFile.write"
+    if q not in g.fns:
+        return [f"{q} not found"]
+    f = g.fns[q]
+    why = []
+    if f.unknown:
+        why += f.unknown
+    non_read = [(k, d) for k, d in f.effects if k != "Read"]
+    if non_read != [("Write", "pyben.dump")]:
+        why.append("its non-read effects are " + ", ".join(f"{k}:{d}" for k, d in non_read) + " instead of one pyben.dump")
+    dumps = [n for n in ast.walk(f.node) if isinstance(n, ast.Call) and isinstance(n.func, ast.Attribute) and n.func.attr == "dump"
+             and isinstance(n.func.value, ast.Name) and n.func.value.id == "pyben"]
+    for n in dumps:
+        tgt = n.args[1] if len(n.args) == 2 and not n.keywords else None
+        if not (isinstance(tgt, ast.Attribute) and tgt.attr == "outfile" and isinstance(tgt.value, ast.Name) and tgt.value.id == "self"):
+            why.append("pyben.dump does not write to self.outfile")
+    for n in ast.walk(f.node):
+        if isinstance(n, (ast.For, ast.While, ast.AsyncFor)) and any(d in ast.walk(n) for d in dumps):
+            why.append("pyben.dump inside a loop")
+        if isinstance(n, ast.Try) and (n.finalbody or n.orelse):
+            inner = [c for part in (n.finalbody, n.orelse) for st in part for c in ast.walk(st) if isinstance(c, ast.Call)]
+            if inner:
+                why.append("calls in a finally/else clause around the write")
+    # callees: nothing but reads, nothing unknown
+    for r in sorted(g.reach(f.calls)):
+        fr = g.fns[r]
+        if fr.unknown or any(k != "Read" for k, _ in fr.effects):
+            why.append(f"callee {r} has effects " + ", ".join(sorted({k for k, _ in fr.effects if k != 'Read'} | ({'Unknown'} if fr.unknown else set()))))
+    return why
 
 
 def gen_create_ops(repo):
@@ -440,8 +524,15 @@ def gen_create_ops(repo):
 
 
 def gen_effects_file(repo):
-    text, _, _ = gen_effects(repo)
+    text, g, _ = gen_effects(repo)
     pops, rops = gen_create_ops(repo)
+    why = metafile_write_shape(repo, g)
+    if why:
+        # Model/Effects.create_fs = probe, then ONE truncating write of OUT.  When MetaFile.write is anything else the model of
+        # `create` is unknown: PUnknown makes create_fs undefined and the instance gen_probe_neutral / gen_create_only_out fail.
+        pops = pops + ["PUnknown"]
+        text += "\n(* torrent.MetaFile.write is NOT the single truncating write `pyben.dump(self.meta, self.outfile)` that create_fs\n" \
+                "   models -- " + "; ".join(why).replace("*)", "* )") + " -- hence PUnknown: *)"
     text += "\nDefinition probe_ops : list probe_op := [" + "; ".join(pops) + "].\n"
     text += "Definition rename_ops : list rename_op := [" + "; ".join(rops) + "].\n"
     return text
